@@ -33,7 +33,7 @@ import DigModel.Proofs.DecoCommute
   `C16_provide_and_decorate_commute_partial` (`Proofs/DecoCommute.lean`): Provide neither reads nor writes what Decorate
   registers (`dtr_apiProvide`: it commutes with any replacement of the decorator tables and of the list of decorator
   nodes, through parsing, registration, the verification loop and every roll-back), so a Provide and an adjacent
-  Decorate whose decorator takes positional parameters only (its parse adds no graph node) can be swapped — accepted or
+  Decorate whose decorator has no value-group parameter (its parse adds no graph node) can be swapped — accepted or
   rejected, whatever the scopes and options: the same two answers and the very same container, hence the same
   outcome of everything that follows; and so can the creation of a child scope and such a Decorate on an existing scope
   (`C16_scope_and_decorate_commute_partial`).  Swapping two Provides, or a Decorate with value-group parameters, changes node
@@ -105,25 +105,25 @@ example (p : Program) (h : ∀ r ∈ (runProgram p).2, r.v = .ok) : ∀ r ∈ (r
   intro r hr e he; rw [h r hr] at he; cases he
 
 
-/-- one slice of the permutation half: **a Provide and an adjacent Decorate can be swapped** when the decorator takes
-    positional parameters only — the two calls give the same two answers (verdict, error, Info) in either order and
+/-- one slice of the permutation half: **a Provide and an adjacent Decorate can be swapped** when the decorator has no
+    value-group parameter (`noGroupT`: no field, at any depth of parameter objects, carries a `group` tag) — the two calls give the same two answers (verdict, error, Info) in either order and
     leave the very same container, so every later operation is answered identically -/
 theorem C16_provide_and_decorate_commute_partial (ctx : Ctx) (fP fD : Fn) (st : St) (iP iD sP sD : Nat) (o : ProvideOpts)
-    (cb info : Bool) (h : ∀ t ∈ (if fD.variadic then fD.ins.dropLast else fD.ins), ∃ i, t = GoT.univ i) :
+    (cb info : Bool) (h : ∀ t ∈ (if fD.variadic then fD.ins.dropLast else fD.ins), noGroupT t = true) :
     (apiDecorate ctx fD (apiProvide ctx fP st iP sP o).1 iD sD cb info).1 =
       (apiProvide ctx fP (apiDecorate ctx fD st iD sD cb info).1 iP sP o).1 ∧
     (apiProvide ctx fP st iP sP o).2 = (apiProvide ctx fP (apiDecorate ctx fD st iD sD cb info).1 iP sP o).2 ∧
     (apiDecorate ctx fD (apiProvide ctx fP st iP sP o).1 iD sD cb info).2 = (apiDecorate ctx fD st iD sD cb info).2 :=
-  provide_decorate_swap_plain ctx fP fD st iP iD sP sD o cb info h
+  provide_decorate_swap_noGroup ctx fP fD st iP iD sP sD o cb info h
 
-/-- a second slice: **creating a child scope and an adjacent Decorate can be swapped** (the decorator takes positional
-    parameters only and decorates a scope that exists already): the same answer, the very same container — "creating a
+/-- a second slice: **creating a child scope and an adjacent Decorate can be swapped** (the decorator has no value-group
+    parameter and decorates a scope that exists already): the same answer, the very same container — "creating a
     child scope earlier or later relative to its ancestors' registrations", for decorators -/
 theorem C16_scope_and_decorate_commute_partial (ctx : Ctx) (fD : Fn) (st : St) (parent iD sD : Nat) (cb info : Bool)
-    (hsD : sD < st.scopes.length) (h : ∀ t ∈ (if fD.variadic then fD.ins.dropLast else fD.ins), ∃ i, t = GoT.univ i) :
+    (hsD : sD < st.scopes.length) (h : ∀ t ∈ (if fD.variadic then fD.ins.dropLast else fD.ins), noGroupT t = true) :
     (apiDecorate ctx fD (apiScope st parent) iD sD cb info).1 = apiScope (apiDecorate ctx fD st iD sD cb info).1 parent ∧
     (apiDecorate ctx fD (apiScope st parent) iD sD cb info).2 = (apiDecorate ctx fD st iD sD cb info).2 :=
-  scope_decorate_swap ctx fD st parent iD sD cb info hsD h
+  scope_decorate_swap_noGroup ctx fD st parent iD sD cb info hsD h
 
 /-- ... because Provide commutes with any replacement of what Decorate registers -/
 theorem C16_provide_ignores_decorators (T : Nat → List (Key × Nat)) (ds : List DecoNode) (ctx : Ctx) (fn : Fn) (st : St)
@@ -131,10 +131,10 @@ theorem C16_provide_ignores_decorators (T : Nat → List (Key × Nat)) (ds : Lis
     apiProvide ctx fn (dtr T ds st) i s o = (dtr T ds (apiProvide ctx fn st i s o).1, (apiProvide ctx fn st i s o).2) :=
   dtr_apiProvide T ds ctx fn st i s o
 
-/-- non-vacuity (a test): a decorator `func(*T0) *T0` has positional parameters only -/
-example : ∀ t ∈ (if ({ id := 3, name := "d", nonfunc := none, ins := [.univ 10], variadic := false, outs := [.univ 10] } : Fn).variadic
-    then [] else [GoT.univ 10]), ∃ i, t = GoT.univ i := by
-  intro t ht; simp at ht; exact ⟨10, ht⟩
+/-- non-vacuity (a test): a decorator `func(*T0, struct{ dig.In; A *T1 `name:"n"` }) *T0` has no value-group parameter -/
+example : ∀ t ∈ [GoT.univ 10, GoT.strct 100 [({ name := "In", exported := true, anon := true, tags := {} }, .univ 1),
+      ({ name := "A", exported := true, anon := false, tags := { name := "n" } }, .univ 11)]], noGroupT t = true := by
+  decide
 
 #print axioms C16_defer_changes_nothing
 #print axioms C16_provide_and_decorate_commute_partial
